@@ -289,6 +289,7 @@ def run(chk):
     eff.compute_writes(scratch=set(SCRATCH))
     r11a(chk, eff)
     r11b(chk, eff)
+    r11c(chk)
 
 
 def r11a(chk, eff, rid='R11.a'):
@@ -431,3 +432,72 @@ def _starts_with_guard(eff, key, fn, depth=0):
     ok = EXIT_RET not in seen
     _GUARD_MEMO[key] = ok
     return ok
+
+
+def r11c(chk, rid='R11.c'):
+    chk.rule(rid, 'argument preparation of the nested rule lists, decided by evaluation: CSSRuleRules._prepareInsertRule is evaluated on its syntax tree for every kind of argument - rule text that parses to no rule, to one rule, to two rules or to something that is no rule; a rule object; a CSSRuleList; any other object - and for indexes in and out of range: nothing is inserted while an argument is only being prepared (the one documented exception is a CSSRuleList, inserted rule by rule), text must denote exactly one rule, the index is checked before anything else')
+    from sa.absint import Evaluator, Obj, Raised, Record
+
+    rel = 'cssutils/css/cssrule.py'
+    m = chk.repo.mod(rel)
+    fn = m.get('CSSRuleRules._prepareInsertRule')
+
+    class RuleM(Obj):
+        pass
+
+    class RuleListM(list):
+        @property
+        def length(self):
+            return len(self)
+
+    class ArgList(list):
+        pass
+
+    r1, r2 = RuleM(tag='r1'), RuleM(tag='r2')
+    texts = {'no rule': [], 'one rule': [r1], 'two rules': [r1, r2], 'not a rule': ['junk']}
+    n = 0
+    for label, arg, index, want in (
+        [(f'text denoting {k}', k, None, (v[0], 2) if k == 'one rule' else (False, False)) for k, v in texts.items()]
+        + [('a rule object', r1, 1, (r1, 1)), ('another object', 42, None, (False, False)), ('a rule object at an index beyond the end', r1, 5, 'IndexSizeErr'), ('a rule object at a negative index', r1, -1, 'IndexSizeErr')]
+    ):
+        inserted, errors = [], []
+
+        def sheet():
+            sh = Record(cssRules=[])
+            return sh
+
+        class Sheet(Record):
+            def __setattr__(self, k, v):
+                if k == 'cssText':
+                    object.__setattr__(self, 'cssRules', ArgList(texts[v]))  # the rule list of a sheet is a CSSRuleList
+                object.__setattr__(self, k, v)
+
+        me = Record(_checkReadonly=lambda: None, _cssRules=RuleListM([RuleM(tag='old1'), RuleM(tag='old2')]), insertRule=lambda r, i=None: inserted.append((getattr(r, 'tag', r), i)),
+                    _log=Record(error=lambda *a, **k: errors.append(a)), __class__=Record(__name__='CSSMediaRule'))
+        intr = {'cssutils': Record(css=Record(CSSStyleSheet=lambda *a, **k: Sheet(cssRules=ArgList()), CSSRule=RuleM, CSSRuleList=ArgList)), 'self._log.error': me._log.error,
+                'xml': Record(dom=Record(IndexSizeErr='IndexSizeErr'))}
+        got = Evaluator(fn, intrinsics=intr, model_types=(RuleListM, ArgList), module=m, cls='CSSRuleRules').run(self=me, rule=arg, index=index)
+        n += 1
+        if isinstance(want, str):
+            ok = isinstance(got, Raised) and got.kind == want and not inserted
+        else:
+            ok = not isinstance(got, Raised) and tuple(got) == want and not inserted and (bool(errors) == (want == (False, False)))
+        chk.ob(rid, rel, 'CSSRuleRules._prepareInsertRule', f'{label}: ' + ('rejected with ' + want if isinstance(want, str) else 'rejected, nothing inserted' if want == (False, False) else 'handed on, nothing inserted yet'), ok,
+               f'returns {got!r}, inserted {inserted}, errors reported: {len(errors)} - preparing an argument must not change the list: what is inserted here stays when a later rule of the same call is refused')
+    # a CSSRuleList argument: its members are inserted one by one; a refusal of a later member must not
+    # leave the earlier ones behind
+    inserted = []
+
+    def refusing(r, i=None):
+        if getattr(r, 'tag', '') == 'r2':
+            from sa.absint import _Raise
+            raise _Raise('HierarchyRequestErr')
+        inserted.append(r.tag)
+
+    me = Record(_checkReadonly=lambda: None, _cssRules=RuleListM([RuleM(tag='old1')]), insertRule=refusing, _log=Record(error=lambda *a, **k: None), __class__=Record(__name__='CSSMediaRule'))
+    intr = {'cssutils': Record(css=Record(CSSStyleSheet=lambda *a, **k: None, CSSRule=RuleM, CSSRuleList=ArgList)), 'self._log.error': me._log.error, 'xml': Record(dom=Record(IndexSizeErr='IndexSizeErr'))}
+    got = Evaluator(fn, intrinsics=intr, model_types=(RuleListM, ArgList), module=m, cls='CSSRuleRules').run(self=me, rule=ArgList([r1, r2]), index=0)
+    chk.ob(rid, rel, 'CSSRuleRules._prepareInsertRule', 'a CSSRuleList whose second member is refused leaves nothing behind', not (isinstance(got, Raised) and inserted),
+           f'the call ends in {got!r} after {inserted} had been inserted: a rejected insertRule(CSSRuleList) leaves its first members in the list')
+    if n < 8:
+        raise AnalysisError('R11.c: cases missing')
